@@ -75,6 +75,7 @@ BadTargets ==
      TB("Set", ById("nope"), NoRef, NoOffset)}
     \cup {TB("Text", ByH(h), NoRef, o) : h \in LiveRes(st), o \in BadOffMenu}
     \cup {Complex("Multi", <<Complex("Multi", <<TB("Res", r, NoRef, NoOffset)>>)>>) : r \in ResRefs}
+    \cup {Complex(k, <<>>) : k \in {"Multi", "Composite", "Directional"}}
 
 DataMenu ==
     {<<>>}
